@@ -21,7 +21,7 @@ OK(c) == /\ NS(c) >= 1
          /\ (c.op = "ou" => c.withT /\ c.d = 3 /\ c.M = 1)
          /\ (c.op = "ns" => ~c.withT /\ c.d = 2 /\ c.M = 2)
          /\ (c.op \notin {"burgers", "fisher", "ou"} => c.Tmax = 1)
-         /\ (c.d = 3 => c.b <= 2 /\ c.deg = 1)
+         /\ (c.d = 3 => c.b <= 2 /\ (c.deg = 1 \/ c.R = 1))     \* degree-2 features in 3 dimensions (second derivatives do not vanish) with one embedding term
 Init == cfg \in {c \in All : OK(c)}
 Next == UNCHANGED cfg
 Spec == Init /\ [][Next]_cfg
